@@ -1,24 +1,25 @@
 package txn
 
 import (
-	"sync"
-	"time"
 	"encoding/json"
 	"fmt"
 	"os"
+	"runtime/debug"
 	"sort"
 	"strings"
+	"sync"
+	"time"
 
 	"github.com/apmckinlay/gsuneido/core"
 	"github.com/apmckinlay/gsuneido/db19"
 	"github.com/apmckinlay/gsuneido/db19/index"
 	"github.com/apmckinlay/gsuneido/db19/index/ixkey"
 	"github.com/apmckinlay/gsuneido/db19/stor"
+	"github.com/apmckinlay/gsuneido/dbms/query"
 	"pgregory.net/rapid"
 	"verifharness/internal/ev"
 	"verifharness/internal/gen"
 	"verifharness/internal/kf"
-	"github.com/apmckinlay/gsuneido/dbms/query"
 )
 
 // ---------------------------------------------------------------- program
@@ -52,7 +53,7 @@ type Program struct {
 	// the old or new row equals valDomain[ThrowOn] (-1: never)
 	// Async: no checker barrier after each step (conflict aborts then reach
 	// the transaction while later messages of it are already queued)
-	Async   bool   `json:"async,omitempty"`
+	Async bool `json:"async,omitempty"`
 	// Domain maps value choices to valDomain entries (nil = identity)
 	Domain  []int  `json:"domain,omitempty"`
 	Trig    []bool `json:"trig,omitempty"`
@@ -68,9 +69,10 @@ type GenOpts struct {
 	ValRange  int            // size of the value domain used (<= len(valDomain))
 	LowMaxAge bool
 	Triggers  bool
-	Pauses    bool // generate pause/release instructions (C16)
-	GlobalPct int  // share of global operations (default 8)
-	SkewPct   int  // share of programs that start with a read/write-skew template
+	Pauses    bool  // generate pause/release instructions (C16)
+	GlobalPct int   // share of global operations (default 8)
+	SkewPct   int   // share of programs that start with a read/write-skew template
+	ChainPct  int   // share of programs on a three-level foreign key chain whose cascade fails part way
 	Domain    []int // value choice -> valDomain index (nil = identity)
 }
 
@@ -83,6 +85,35 @@ var defaultWeights = map[string]int{
 
 func genProgram(t *rapid.T, o GenOpts) Program {
 	p := Program{Schemas: genSchemas(t, o.World), MaxAge: 20}
+	// three-level chain template: t0 <- t1 (cascade update, two rows on one
+	// target key) <- t2 (blocks the re-keying of ONE of the t1 rows): the
+	// cascade of a key change of t0 fails after part of it was applied; the
+	// refusal must leave nothing behind (the transaction dies or its view is
+	// unchanged), whatever the caller does afterwards.
+	chain := o.World.Fkeys && o.ChainPct > 0 && gen.Chance(t, "chain", o.ChainPct)
+	var chainSetup, chainBody []Instr
+	if chain {
+		third := gen.Pick(t, "chain3", []string{"", " cascade"})
+		p.Schemas = []string{
+			"create t0 (a,b,c,d) key(a)",
+			"create t1 (a,b,c,d) key(a,b) index(b) in t0(a) cascade update",
+			"create t2 (a,b,c,d) key(a) index(b,c) in t1(a,b)" + third,
+		}
+		const X, Y, P, Q, R = 1, 2, 3, 4, 5
+		blocked := gen.Pick(t, "chainblocked", []int{P, Q})
+		chainSetup = []Instr{
+			{Op: "output", S: 7, T: 0, K: []int{X, 0, 0, 0}, Trim: true},
+			{Op: "output", S: 7, T: 1, K: []int{P, X, 0, 0}, Trim: true},
+			{Op: "output", S: 7, T: 1, K: []int{Q, X, 0, 0}, Trim: true},
+			{Op: "output", S: 7, T: 2, K: []int{R, blocked, X, 0}, Trim: true},
+		}
+		chainBody = []Instr{
+			{Op: "begin", S: 0},
+			{Op: "update", S: 0, T: 0, K: []int{1, Y, 0, 0, 0}, N: 1, Trim: true},
+			{Op: "output", S: 0, T: 0, K: []int{6 + gen.Uniform(t, "chainout", 6), 0, 0, 0}, Trim: true},
+			{Op: "complete", S: 0},
+		}
+	}
 	if o.LowMaxAge && gen.Chance(t, "lowage", 30) {
 		p.MaxAge = rapid.IntRange(1, 3).Draw(t, "maxage")
 	}
@@ -143,9 +174,12 @@ func genProgram(t *rapid.T, o GenOpts) Program {
 	for i := 0; i < nsetup; i++ {
 		p.Instrs = append(p.Instrs, Instr{Op: "output", S: setupSlot, T: gen.Uniform(t, "t", nt), K: vals("k"), Trim: true})
 	}
-	if nsetup > 0 {
+	p.Instrs = append(p.Instrs, chainSetup...)
+	if nsetup > 0 || len(chainSetup) > 0 {
 		p.Instrs = append(p.Instrs, Instr{Op: "complete", S: setupSlot})
 	}
+	nsetup += len(chainSetup)
+	p.Instrs = append(p.Instrs, chainBody...)
 	// scripts: each slot runs a sequence of transactions; the schedule interleaves them
 	genOp := func(s int, op string) Instr {
 		home = s
@@ -327,17 +361,20 @@ func (o *logOp) String() string {
 }
 
 type tranState struct {
-	id     int
-	ut     *db19.UpdateTran
-	rt     *db19.ReadTran
-	w      *World // schema at start
-	snap   MDB
-	view   MDB
-	events []event
-	nops   int
-	dead   bool   // known to have failed / ended
-	why    string // failure text
+	id            int
+	ut            *db19.UpdateTran
+	rt            *db19.ReadTran
+	w             *World // schema at start
+	snap          MDB
+	view          MDB
+	events        []event
+	nops          int
+	dead          bool   // known to have failed / ended
+	why           string // failure text
 	overlapWrites bool
+	// offsets of earlier versions of rows this transaction has updated itself
+	// (table + first key of the current row -> offset before the first update)
+	staleOff map[string]uint64
 }
 
 func (ts *tranState) isUpdate() bool { return ts.ut != nil }
@@ -364,8 +401,8 @@ type Violation struct {
 
 // Config says which properties' oracles are fatal for the running test.
 type Config struct {
-	Own     map[string]bool
-	Rec     *ev.Rec
+	Own         map[string]bool
+	Rec         *ev.Rec
 	CheckStates bool // check every state delivered by VerifStateUpdated (C06/C16)
 	// C16: the merger goroutine can be held between computing a merge/persist
 	// on a snapshot and applying it; the database runs with a 1 ms persist
@@ -385,21 +422,26 @@ type run struct {
 	nextID    int
 	// statistics for non-triviality
 	nCommitOK, nCommitFail, nAbort, nConflict, nOverlapCommit, nRefusedDup, nRefusedFk, nCascade int
-	nScanBack, nScanPartial, nPersist, nAdminOK, nMaxAge, nExclusive, nDeadOpChecked         int
-	nUnexpectedRefusal                                                                     int
-	labels                                                                                 map[string]int
-	states                                                                                 []*db19.DbState
-	foreign                                                                                *Violation
+	nScanBack, nScanPartial, nPersist, nAdminOK, nMaxAge, nExclusive, nDeadOpChecked             int
+	nUnexpectedRefusal                                                                           int
+	labels                                                                                       map[string]int
+	states                                                                                       []*db19.DbState
+	foreign                                                                                      *Violation
 	// paused merger (C16)
-	pz *pauser
+	pz                *pauser
 	queuedWhilePaused int
+	// commits sent to the merger since it was last known to have drained its
+	// queue (the merge channel holds 4; a commit made after a pause point was
+	// armed but before the merger reached it is queued without being counted
+	// in queuedWhilePaused)
+	commitsSinceDrain                                 int
 	nAppliedAfterCommit, nPausedMerge, nPausedPersist int
-	stateMu sync.Mutex
-	newStates []*db19.DbState
+	stateMu                                           sync.Mutex
+	newStates                                         []*db19.DbState
 	// triggers (C44)
-	prog       *Program
-	triglog    []trigCall
-	trigOff    map[string]int
+	prog                                                         *Program
+	triglog                                                      []trigCall
+	trigOff                                                      map[string]int
 	nTrigCalls, nTrigThrow, nTrigCascade, nTrigDisabled, nAction int
 }
 
@@ -409,7 +451,9 @@ type trigCall struct {
 	Tran     string
 }
 
-func (c trigCall) String() string { return fmt.Sprintf("%s %v->%v in %s", c.Table, c.Old, c.New, c.Tran) }
+func (c trigCall) String() string {
+	return fmt.Sprintf("%s %v->%v in %s", c.Table, c.Old, c.New, c.Tran)
+}
 
 const trigBoom = "trigger-boom"
 
@@ -563,6 +607,14 @@ func scanAll(it iterTran, mk func() index.IndexIter, getRec func(uint64) core.Re
 // props: who owns a content mismatch; index disagreements belong to C06.
 func (r *run) checkView(what string, w *World, m MDB, it iterTran, mkIter func(table string, i int) index.IndexIter,
 	getRec func(uint64) core.Record, info func(table string) (int, int64, bool), contentProps ...string) {
+	// (index and content checks for all tables first, Info afterwards: when a
+	// half-applied operation shows in one table's Info and in another table's
+	// rows, the content mismatch - owned by more properties - is the one raised)
+	type tinfo struct {
+		nrows int
+		size  int64
+	}
+	actual := map[string]tinfo{}
 	for _, td := range w.Tables {
 		var offs0 map[uint64]bool
 		nrows, size := 0, int64(0)
@@ -597,7 +649,11 @@ func (r *run) checkView(what string, w *World, m MDB, it iterTran, mkIter func(t
 				r.violate(fmt.Sprintf("%s: table %s via index %d (%s) shows %v, model has %v", what, td.Name, i, strings.Join(td.Idx[i].ColNames, ","), got, want), contentProps...)
 			}
 		}
-		if info != nil {
+		actual[td.Name] = tinfo{nrows, size}
+	}
+	if info != nil {
+		for _, td := range w.Tables {
+			nrows, size := actual[td.Name].nrows, actual[td.Name].size
 			if n, sz, ok := info(td.Name); ok && (n != nrows || sz != size) {
 				r.violate(fmt.Sprintf("%s: table %s reports Nrows=%d Size=%d, actual rows=%d bytes=%d", what, td.Name, n, sz, nrows, size), "C03")
 			}
@@ -918,7 +974,7 @@ func (r *run) exec(in Instr) {
 			// these wait for the merger: disarm and let it go first
 			r.releaseMerger()
 		case "complete":
-			if r.queuedWhilePaused >= 3 { // the checker would block on the full merge channel
+			if r.queuedWhilePaused >= 3 || r.commitsSinceDrain >= 3 { // the checker would block on the full merge channel
 				r.releaseMerger()
 				r.mergerBarrier()
 			}
@@ -1079,6 +1135,19 @@ func (r *run) exec(in Instr) {
 				r.label("deletes_aimed_at_rows_read_by_other_transaction")
 			}
 		}
+		stale := in.K[0]%4 == 3
+		if stale {
+			// prefer a row this transaction has already updated
+			var upd []Row
+			for _, row := range ts.view.rows(td.Name) {
+				if _, ok := ts.staleOff[td.Name+"\x00"+pkOf(td, row)]; ok {
+					upd = append(upd, row)
+				}
+			}
+			if len(upd) > 0 {
+				rows = upd
+			}
+		}
 		old := rows[in.K[0]%len(rows)]
 		// a row must be read before it can be changed: look it up by its first key
 		rd, rec, err := r.doLookupKey(ts, td, 0, td.Idx[0].key(old))
@@ -1119,7 +1188,24 @@ func (r *run) exec(in Instr) {
 			}
 			op.New = nw
 		}
-		r.doWrite(ts, in, op, rec.Off)
+		off := rec.Off
+		if stale {
+			// write through a stale record: the offset the row had before this
+			// transaction's own earlier update of it (what code holding on to
+			// an old record does). The engine refuses that; the refusal must
+			// kill the transaction or leave its view untouched.
+			if so, ok := ts.staleOff[td.Name+"\x00"+pkOf(td, old)]; ok && so != off {
+				same := false
+				if in.Op == "update" {
+					catch(func() { same = string(recOf(op.New, in.Trim)) == string(ts.ut.GetRecord(so)) })
+				}
+				if !same {
+					off = so
+					r.label("write_through_stale_offset")
+				}
+			}
+		}
+		r.doWrite(ts, in, op, off)
 	case "complete":
 		ts := r.slots[in.S]
 		if ts == nil {
@@ -1160,6 +1246,7 @@ func (r *run) exec(in Instr) {
 		r.logf("  persist")
 	case "mergesync":
 		catch(func() { r.db.RunExclusive("zz_sync", func() {}) })
+		r.commitsSinceDrain = 0
 		r.logf("  mergesync")
 	case "tick":
 		r.db.VerifTick()
@@ -1534,6 +1621,20 @@ func (r *run) applyWrite(ts *tranState, in Instr, op *logOp, off uint64) bool {
 			}
 			r.violate(fmt.Sprintf("transaction #%d: %v succeeded but must be refused (%v)", ts.id, op, ref), prop)
 		}
+		if op.Kind == "update" && !identical {
+			if td := ts.w.table(op.Table); td != nil {
+				if ts.staleOff == nil {
+					ts.staleOff = map[string]uint64{}
+				}
+				ko, kn := op.Table+"\x00"+pkOf(td, op.Old), op.Table+"\x00"+pkOf(td, op.New)
+				first := off
+				if so, ok := ts.staleOff[ko]; ok {
+					first = so
+					delete(ts.staleOff, ko)
+				}
+				ts.staleOff[kn] = first
+			}
+		}
 		ts.view = tmp
 		if !identical {
 			ts.events = append(ts.events, event{op: op})
@@ -1690,6 +1791,9 @@ func (r *run) complete(ts *tranState, slot int) {
 	if ts.nops > 0 && r.pz != nil && r.pz.isPaused() != "" {
 		r.queuedWhilePaused++
 	}
+	if ts.nops > 0 && r.pz != nil {
+		r.commitsSinceDrain++
+	}
 	if ts.nops > 0 {
 		// C01: serial replay at the commit point
 		if ts.snap.String() != r.committed.String() {
@@ -1833,7 +1937,14 @@ func RunProgram(p Program, cfg Config) (viol *Violation, st Stats) {
 		if e := recover(); e != nil {
 			v, ok := e.(*Violation)
 			if !ok {
-				panic(e)
+				if msg := fmt.Sprint(e); strings.HasPrefix(msg, "harness:") || r.db == nil || r.w == nil {
+					panic(e)
+				}
+				// the engine panicked under the harness's own reads of a view
+				// or state (e.g. "OverIter Cur deleted"): what a reader sees is
+				// not a consistent set of index entries
+				v = &Violation{Props: []string{"C06", "C03"},
+					Msg: fmt.Sprintf("engine panicked while a view / state was read back: %v\n%s", e, debug.Stack())}
 			}
 			viol = v
 			st.Log = r.log
@@ -2076,6 +2187,7 @@ func (r *run) mergerBarrier() {
 		return
 	}
 	catch(func() { r.db.RunExclusive("zz_sync", func() {}) })
+	r.commitsSinceDrain = 0
 }
 
 // stateContent compares the logical content of one published state with a
